@@ -28,6 +28,7 @@ def semantic_hooks():
     return {
         "atsim.potentials._util:gradient": lambda i, fv, a, k, n: DerivV(a[0]),
         "spec.writers:D": lambda i, fv, a, k, n: DerivV(a[0]),
+        "spec.writers:ANY": lambda i, fv, a, k, n: Opaque(("any",)),
     }
 
 
@@ -36,9 +37,21 @@ def make_interp(P, elem=None, hooks=True, assumptions=None):
     for path, (mod, cls) in (elem or {}).items():
         ec[path] = P.cls(mod, cls)
     I = Interp(P, elem_classes=ec, assumptions=assumptions or {})
+    I.assumption_fns.append(species_nonempty)
     if hooks:
         I.hooks.update(semantic_hooks())
     return I
+
+
+def species_nonempty(cond):
+    """species labels are non-empty strings"""
+    if isinstance(cond, Cond) and cond.kind == "truthy" and isinstance(cond.args[0], Opaque):
+        if "species" in repr(cond.args[0].path):
+            return True
+    return None
+
+
+species_nonempty.text = "species labels are non-empty strings"
 
 
 def param(name):
@@ -206,3 +219,189 @@ def step_ok(chk, rule, fi, pname, dv):
            found=dv, expect="1e-8 <= h <= 1e-5 (truncation h^2|f'''|/24 and round-off eps|f|/h both below the printed 8 decimals "
                             "for |f'''| <= 1e3, |f| <= 1)",
            key="%s|%s|default-step" % (rule, fi.qualname))
+
+
+def tabulation_output(P, clsname, elem, module="atsim.potentials.pair_tabulation", ctor=None, assumptions=None):
+    I = make_interp(P, elem=elem, assumptions=assumptions)
+    cls = P.cls(module, clsname)
+    inst = I.instantiate(cls, ctor or [param("potentials"), nsym("cutoff"), nsym("nr")], {}, None)
+    fp = BufV("fp", is_file=True)
+    run_method(I, inst, "write", [fp])
+    return I, out_tree(fp)
+
+
+def spec_output(P, name, args, assumptions=None):
+    J = make_interp(P, assumptions=assumptions)
+    fp = BufV("fp", is_file=True)
+    J.run(P.func("spec.writers", name), list(args) + [fp])
+    return J, out_tree(fp)
+
+
+
+def factory_route(chk, P, rule, target, clsname, min_nr=None, eam=False, label=None):
+    """TABULATION_FACTORIES[target].create_tabulation(cp) -> instance of clsname with the parser's grid"""
+    I = make_interp(P)
+    mod = P.module("atsim.potentials.config._tabulation_factories")
+    table = I.module_global(mod, "TABULATION_FACTORIES")
+    if not isinstance(table, DictV):
+        raise AnalysisError("TABULATION_FACTORIES is not a dict literal")
+    k = Const(target).key()
+    label = label or target
+    site = "%s TABULATION_FACTORIES[%r]" % (mod.relpath, target)
+    if k not in table.items:
+        chk.ob(rule, "target %r registered" % label, False, site=site, found=sorted(x.v for x, _ in table.items.values()),
+               expect=target, key="%s|%s|registered" % (rule, label))
+        return None
+    fac = table.items[k][1]
+    tc = I.getattr(fac, "tabulation_class")
+    ok = isinstance(tc, ClassV) and tc.ci.name == clsname
+    chk.ob(rule, "factory for %r instantiates %s" % (label, clsname), ok, site=site, found=tc, expect=clsname,
+           key="%s|%s|class" % (rule, label))
+    # run create_tabulation with an opaque parser; builders replaced by opaque results
+    I.hooks["atsim.potentials.config._potential_form_registry:Potential_Form_Registry.__init__"] = lambda i, fv, a, k, n: NONE
+    I.hooks["atsim.potentials.config._modifier_registry:Modifier_Registry.__init__"] = lambda i, fv, a, k, n: NONE
+    I.hooks["atsim.potentials.config._tabulation_factories:_create_pair_objects"] = lambda i, fv, a, k, n: param("potentials")
+    I.hooks["atsim.potentials.config._tabulation_factories:PairTabulationFactory._log_tabulation_details"] = lambda i, fv, a, k, n: NONE
+    if eam:
+        def eam_builder_init(i, fv, a, k, n):
+            fv.selfv.attrs["_potlist"] = param("eam_potentials")
+            return NONE
+        I.hooks["atsim.potentials.config._eam_potential_builder:EAM_Potential_Builder.__init__"] = eam_builder_init
+        I.hooks["atsim.potentials.config._tabulation_factories:EAMTabulationFactory._create_reference_data"] = \
+            lambda i, fv, a, k, n: param("reference_data")
+    def log_only(cond):
+        if isinstance(cond, Cond) and cond.kind == "isinstance":
+            return False
+        return None
+    log_only.text = "isinstance() tests in the factories only select log messages"
+    I.assumption_fns.append(log_only)
+    cp = param("cp")
+    tab = run_method(I, fac, "create_tabulation", [cp])
+    if not isinstance(tab, InstV):
+        raise AnalysisError("create_tabulation did not return an instance: %r" % (tab,))
+    tabpath = ("attr", ("param", "cp"), "tabulation")
+
+    def grid(attr, default):
+        o = Opaque(("attr", tabpath, attr))
+        return Phi(Cond("isnone", o), Num(ep.const(default)), o)
+
+    checks = [("potentials", param("potentials")), ("cutoff", grid("cutoff", 10)), ("nr", grid("nr", 1001))]
+    if eam:
+        checks += [("eam_potentials", param("eam_potentials")), ("cutoff_rho", grid("cutoff_rho", 100)), ("nrho", grid("nrho", 1001))]
+    from .treecmp import Cmp
+    c = Cmp(I)
+    for attr, want in checks:
+        got = I.getattr(tab, attr)
+        ok = c.val_eq(got, want)
+        chk.ob(rule, "%s tabulation.%s is the parser's value (documented default when absent)" % (label, attr), ok, site=site,
+               found=got, expect=want, key="%s|%s|arg-%s" % (rule, label, attr))
+    return I, tab
+
+
+# ---------------------------------------------------------------------------
+# EAM family helpers
+
+EAM_ELEM = {("param", "potentials"): POT, ("param", "eam_potentials"): EAMPOT}
+
+
+def eam_ctor():
+    return [param("potentials"), param("eam_potentials"), nsym("cutoff"), nsym("nr"), nsym("cutoff_rho"), nsym("nrho")]
+
+
+def eam_class_vs_spec(chk, rule, P, clsname, specname, opts=None, ctor=None, elem=None):
+    elem = elem or EAM_ELEM
+    ctor = ctor or eam_ctor()
+    I, found = tabulation_output(P, clsname, elem, module="atsim.potentials.eam_tabulation", ctor=ctor)
+    J = make_interp(P, elem=elem)
+    fp = BufV("fp", is_file=True)
+    J.run(P.func("spec.writers", specname), list(ctor) + [fp])
+    expect = out_tree(fp)
+    compare_trees(chk, rule, "%s.write" % clsname, I, found, expect, opts)
+    return I, found, expect
+
+
+def eam_api_vs_spec(chk, rule, P, modname, funcname, specname, opts=None):
+    """public writer function f(nrho, drho, nr, dr, eampots, pairpots, out) against its reference"""
+    args = [nsym("nrho"), nsym("drho"), nsym("nr"), nsym("dr"), param("eam_potentials"), param("potentials")]
+    I = make_interp(P, elem=EAM_ELEM)
+    fp = BufV("fp", is_file=True)
+    I.run(P.func(modname, funcname), args + [fp])
+    found = out_tree(fp)
+    J = make_interp(P, elem=EAM_ELEM)
+    fp2 = BufV("fp", is_file=True)
+    J.run(P.func("spec.writers", specname), args + [fp2])
+    compare_trees(chk, rule, funcname, I, found, out_tree(fp2), opts)
+    return I, found
+
+
+def resolve_target(P, given):
+    """the factory key that _TabulationSection._init_target produces for a target spelling"""
+    I = make_interp(P)
+    I.hooks["atsim.potentials.config._config_parser:_get_or_none"] = lambda i, fv, a, k, n: Const(given)
+    ci = P.cls("atsim.potentials.config._config_parser", "_TabulationSection")
+    inst = InstV(ci)
+    cp = DictV()
+    cp.items[Const("Tabulation").key()] = (Const("Tabulation"), param("section"))
+    run_method(I, inst, "_init_target", [cp])
+    got = inst.attrs.get("_target")
+    if not (isinstance(got, Const) and isinstance(got.v, str)):
+        raise AnalysisError("_init_target did not produce a constant target for %r: %r" % (given, got))
+    return got.v
+
+
+def count_blocks(I, tree, prefixes):
+    """symbolic number of blocks whose text starts with one of ``prefixes`` (literal pieces), counting
+    enclosing repetitions by their trip counts -> RF, or raises AnalysisError for an uncountable loop"""
+    def trips(node):
+        if isinstance(node, SRep):
+            return node.hi - node.lo
+        if isinstance(node, SSeqRep):
+            return seq_count(node.seq)
+        return None
+
+    def seq_count(key):
+        if isinstance(key, tuple) and key and key[0] == "seq":
+            path = key[1]
+            if isinstance(path, tuple) and path and path[0] == "sorted_set":
+                card = set_cardinality(path[1])
+                if card is None:
+                    raise AnalysisError("cannot count the elements of %r" % (path,))
+                return card
+            if isinstance(path, tuple) and path and path[0] == "sorted":
+                inner = path[1]
+                if inner[0] == "seqmap":
+                    return seq_count(inner[1])
+            return ep.app(("len", path), [])
+        raise AnalysisError("cannot count repetitions over %r" % (key,))
+
+    def walk(node):
+        total = ep.const(0)
+        for p in parts_of(node):
+            if isinstance(p, SLit):
+                for pre in prefixes:
+                    total = total + ep.const(p.text.count(pre))
+            elif isinstance(p, (SRep, SSeqRep)):
+                total = total + trips(p) * walk(p.body)
+            elif isinstance(p, SAlt):
+                a, b = walk(p.a), walk(p.b)
+                if not ep.equal(a, b)[0]:
+                    raise AnalysisError("block count differs between branches")
+                total = total + a
+        return total
+    return walk(tree)
+
+
+def set_cardinality(setkey):
+    """|{sorted(a(x), a(y)) : x, y in S}| = n(n+1)/2 for the key of a SetAccV"""
+    from .treecmp import key_eq
+    if not (isinstance(setkey, tuple) and setkey[0] == "setacc" and len(setkey[1]) == 1 and not setkey[2]):
+        return None
+    doms, ek = setkey[1][0]
+    if len(doms) == 2 and key_eq(doms[0], doms[1]) and isinstance(ek, tuple) and ek and ek[0] == "sorted" and len(ek[1]) == 2:
+        a, b = ek[1]
+        sa = ep._subst_key(a, {"@s0": ep.sym("@x"), "@s1": ep.sym("@y")})
+        sb = ep._subst_key(b, {"@s0": ep.sym("@y"), "@s1": ep.sym("@x")})
+        if key_eq(sa, sb) and doms[0][0] == "seq":
+            n = ep.app(("len", doms[0][1]), [])
+            return n * (n + ep.const(1)) / ep.const(2)
+    return None
